@@ -10,6 +10,7 @@ Also: unparse(emitted AST) re-parsed equals the emitted AST (cdd's own cmp_ast +
 import argparse
 import ast
 import inspect
+import re
 import sys
 import typing
 from copy import deepcopy
@@ -60,7 +61,7 @@ MATRIX = _matrix()
 
 def streams(ctx):
     return [("matrix", len(MATRIX)), ("random", ctx.scale(1800, 10000)), ("shapes", ctx.scale(900, 6000)), ("big", ctx.scale(60, 800)), ("similar", ctx.scale(200, 2500)),
-            ("shared_ir", ctx.scale(300, 4000))]
+            ("shared_ir", ctx.scale(300, 4000)), ("announced", ctx.scale(300, 3000))]
 
 
 def gen_case(ctx, stream, idx):
@@ -68,6 +69,17 @@ def gen_case(ctx, stream, idx):
     if stream == "matrix":
         tk, dk, n, pos = MATRIX[idx]
         return irgen.matrix_ir(r, tk, dk, n, pos, with_return=idx % 2 == 1)
+    if stream == "announced":
+        # descriptions that announce their default in prose (as every docstring written by cdd with emit_default_doc
+        # does): whether the help text repeats the announcement is what emit_default_doc decides
+        ir = irgen.rand_ir(r, nparams=r.randint(1, 4), type_kinds=("int", "float", "str", "bool"),
+                           default_kinds=("int", "float", "str", "bool", "strspace"), all_defaults=True, with_return=False)
+        for p in ir["params"].values():
+            if r.random() < 0.8:
+                d = p["default"]
+                p["doc"] = p["doc"].rstrip(".") + r.choice((". Defaults to %s", ", defaults to %s", ". Defaults to %s")) % (
+                    '"%s"' % d if isinstance(d, str) else d)
+        return ir
     if stream == "similar":
         return irgen.similar_ir(r, type_kinds=CORE_T, default_kinds=CORE_D)
     if stream == "shared_ir":
@@ -82,8 +94,8 @@ def gen_case(ctx, stream, idx):
         # punctuation in descriptions (help texts, docstrings)
         return irgen.rand_ir(r, type_kinds=CORE_T + ("nested", "nested", "str", "literaldq", "literaldq"),
                              default_kinds=CORE_D + ("strodd", "strodd", "strbad"), nparams=r.randint(1, 6),
-                             doc_kinds=("plain", "punct", "punct"))
-    return irgen.rand_ir(r, type_kinds=CORE_T, default_kinds=CORE_D, nparams=r.randint(1, 6))
+                             doc_kinds=("plain", "punct", "punct", "quoted"))
+    return irgen.rand_ir(r, type_kinds=CORE_T, default_kinds=CORE_D, nparams=0 if idx % 16 == 3 else r.randint(1, 6))
 
 
 def namespace():
@@ -224,6 +236,11 @@ def arg_value(a):
     return "text"
 
 
+def norm_help(d):
+    """norm_doc, with the lower-case spelling of the announcement (`..., defaults to 5`) removed as well"""
+    return norm_doc(re.sub(r"[.,]?\s*[Dd]efaults to .*$", "", d or "", flags=re.S)).rstrip(",")  # (`x, defaults to 5` -> `x,`)
+
+
 def check_argparse(P, ctxd, fmt, cfg, ir, ns, src):
     f = ns.get("set_cli_args")
     if not inspect.isfunction(f):
@@ -271,9 +288,18 @@ def check_argparse(P, ctxd, fmt, cfg, ir, ns, src):
         if typ.startswith("Optional[") and a.required:
             dev(P, ctxd, fmt, cfg, "required", "optional-required", tk, dk, "%s: Optional yet required" % name, src)
         # help text
-        if norm_doc(a.help) != norm_doc(p.get("doc")):
+        if norm_help(a.help) != norm_help(p.get("doc")):
             dev(P, ctxd, fmt, cfg, "help", "differs", tk, dk, "%s: help=%r described %r" % (name, a.help, p.get("doc")),
                 src)
+        if "emit_default_doc" in cfg:
+            # the option carries its default itself; the help text repeats the description's announcement of it exactly
+            # when emit_default_doc asks for that
+            P.monitor("argparse.help.announcement.checked")
+            announced = "efaults to" in (p.get("doc") or "")
+            if ("efaults to" in (a.help or "")) != (announced and bool(cfg["emit_default_doc"])):
+                dev(P, ctxd, fmt, cfg, "help", "announces-default" if not cfg["emit_default_doc"] else "drops-announcement",
+                    tk, dk, "%s: emit_default_doc=%r help=%r described %r" % (name, cfg["emit_default_doc"], a.help,
+                                                                             p.get("doc")), src)
     # parse with only the required options given: every other option yields its described default
     argv = []
     for a in acts:
@@ -321,6 +347,8 @@ def run_case(ctx, P, stream, idx):
         confs = [(f, c) for f, c in confs if c["docstring_format"] == style and (f != "function" or (
             c["type_annotations"] and c["emit_as_kwonlyargs"]))]
         r_.shuffle(confs)
+    if stream == "announced":
+        confs = [("argparse", {"docstring_format": st, "emit_default_doc": edd}) for st in STYLES for edd in (False, True)]
     for n, (fmt, cfg) in enumerate(confs):
         if fmt == "argparse" and compound:
             continue  # argparse has no notation for compound types (narrowed: C02's documented findings)
